@@ -180,6 +180,16 @@ def build_harness(scratch, tags=("verif",), race=False, gcflags=None, name="vhar
     return out
 
 
+def _limit_memory():
+    """preexec: cap a worker's address space so that a runaway allocation dies quickly instead of exhausting the machine."""
+    try:
+        import resource
+        lim = int(os.environ.get("VERIF_WORKER_AS_GB", "8")) << 30
+        resource.setrlimit(resource.RLIMIT_AS, (lim, lim))
+    except Exception:
+        pass
+
+
 class WorkerOutcome:
     def __init__(self):
         self.evaluations = 0
@@ -295,7 +305,7 @@ def run_single(binary, runner, job, scratch, timeout=60, env=None, tag="single")
         e.update(env)
     try:
         p = subprocess.run([binary, runner, jp], stdout=subprocess.PIPE, stderr=subprocess.PIPE, text=True,
-                           errors="replace", timeout=timeout, env=e)
+                           errors="replace", timeout=timeout, env=e, preexec_fn=_limit_memory)
         return p.returncode, p.stdout, p.stderr, False
     except subprocess.TimeoutExpired as ex:
         so = ex.stdout.decode("utf8", "replace") if isinstance(ex.stdout, bytes) else (ex.stdout or "")
@@ -319,6 +329,7 @@ def run_workers(scratch, binary, runner, base_job, shards=None, case_timeout=30,
     lock = threading.Lock()
     deadline = time.time() + total_timeout
     e = dict(os.environ)
+    e.setdefault("GOMAXPROCS", "2")   # one worker process per core: keep each runtime small
     if env:
         e.update(env)
 
@@ -336,7 +347,7 @@ def run_workers(scratch, binary, runner, base_job, shards=None, case_timeout=30,
             errp = outp + ".err"
             hung = False
             with open(outp, "w") as fo, open(errp, "w") as fe:
-                p = subprocess.Popen([binary, runner, jp], stdout=fo, stderr=fe, env=e)
+                p = subprocess.Popen([binary, runner, jp], stdout=fo, stderr=fe, env=e, preexec_fn=_limit_memory)
                 last_idx, last_change = None, time.time()
                 while True:
                     try:
@@ -369,7 +380,7 @@ def run_workers(scratch, binary, runner, base_job, shards=None, case_timeout=30,
                 final, nxt = _parse_lines(text, outcome)
             if p.returncode == 0 and final and not hung:
                 return
-            if p.returncode in (2, 3):
+            if p.returncode in (64, 65):
                 with lock:
                     outcome.infra.append("worker %d: %s" % (si, err[-500:]))
                 return
@@ -561,6 +572,9 @@ def report(prop, tier, findings, outcome, runner, params, record=False):
             if len(cur["examples"]) < 3:
                 cur["examples"].append(c.get("case"))
                 cur["details"].append((c.get("stderr") or "")[-600:])
+    if os.environ.get("VERIF_DUMP_CRASHES"):
+        with open(os.environ["VERIF_DUMP_CRASHES"], "w") as f:
+            json.dump([dict(kind=c.get("kind2") or c.get("kind"), confirmed=c.get("confirmed"), case=c.get("case")) for c in outcome.crashes], f)
     oracle = {s: v for s, v in sigs.items() if s.startswith("ORACLE|")}
     for s in oracle:
         del sigs[s]
